@@ -323,3 +323,14 @@ package activitypub
 //@               (exists (k) (and (<= 0 k) (< k (len (deref i))) (iriEq (link (at it j)) (at (deref i) k) false)))))
 //@   invariant (forall (k) (=> (and (<= (len (old (deref i))) k) (< k (len (deref i))))
 //@               (exists (j) (and (<= 0 j) (<= j rangeindex) (= (at (deref i) k) (link (at it j)))))))
+
+// ---- C11: Clean() -------------------------------------------------------------------------------
+// cleanRec is the callee contract of CleanRecipients at nested positions (induction hypothesis): it
+// returns the item with every object reachable along the walked properties cleaned.
+
+//@ func (ItemCollection).Clean
+//@ loop 0
+//@   invariant (and (<= -1 rangeindex) (< rangeindex (len i)))
+//@   invariant (forall (k) (=> (and (<= 0 k) (<= k rangeindex)) (= (at i k) (cleanRec (old (at i k))))))
+//@   invariant (forall (k) (=> (and (< rangeindex k) (< k (len i))) (= (at i k) (old (at i k)))))
+//@ ensures (forall (k) (=> (and (<= 0 k) (< k (len i))) (= (at i k) (cleanRec (old (at i k))))))
